@@ -58,8 +58,11 @@ struct Model {
 }
 
 /// Drive one history on one long-lived store, comparing every search with a freshly built store.
-fn run_history(cx: &mut Cx, lang: &'static str, ops: &[Op], sample: bool) -> bool {
+fn run_history(cx: &mut Cx, lang: &'static str, ops: &[Op], sample: bool, across_threads: bool) -> bool {
     let mut st = St::new(lang, 10, ("[", "]"));
+    if across_threads {
+        cx.count("histories whose searches run on other threads than the adds (the store is moved there and back)");
+    }
     let mut m = Model { lang, recs: vec![], limit: 10, markers: ("[", "]"), next_id: 1 };
     let mut shown: Vec<String> = vec![];
     let mut searched = false;
@@ -137,7 +140,23 @@ fn run_history(cx: &mut Cx, lang: &'static str, ops: &[Op], sample: bool) -> boo
             }
             Op::Other(_) => {}
             Op::Search(q) => {
-                let got = st.search(q);
+                let got = if across_threads {
+                    // `Store` is `Send`: hand it to a new thread for this search and take it back
+                    let q2 = q.clone();
+                    let (back, got) = match std::thread::spawn(move || {
+                        let got = st.search(&q2);
+                        (st, got)
+                    })
+                    .join()
+                    {
+                        Ok(x) => x,
+                        Err(e) => std::panic::resume_unwind(e),
+                    };
+                    st = back;
+                    got
+                } else {
+                    st.search(q)
+                };
                 let fresh = St::build(m.lang, &m.recs, m.limit, m.markers);
                 let exp = fresh.search(q);
                 cx.eval();
@@ -867,7 +886,7 @@ impl Prop for History {
     fn floors(&self) -> Vec<(&'static str, u64, u64)> {
         match self.0 {
             Which::NoCrash => vec![("searches", 20000, 200000), ("searches with hits", 5000, 50000), ("joined-record hits (two spans from a one-word query)", 50, 500), ("non-ASCII queries", 2000, 20000), ("limit 0", 200, 2000), ("limit 65536", 200, 2000), ("histories with boundary-value record ids", 2000, 20000), ("long-text searches", 500, 5000), ("long-text searches with a query over 255 characters", 100, 1000), ("corpus-store searches", 300, 3000), ("long-text cases with a giant word or a 1000+ word title", 20, 200), ("soak searches on one store", 600000, 2500000), ("most searches on one store max ", 66000, 66000), ("soak stores with more than 2^16 records", 2, 8), ("adds re-using the id of an earlier record", 5000, 50000)],
-            Which::NoStale => vec![("search after add following an earlier search", 2000, 20000), ("search after clear following an earlier search", 500, 5000), ("search after limit following an earlier search", 500, 5000), ("empty-query search after a mutation following an earlier search", 1000, 10000), ("exhaustive histories", 20000, 200000), ("histories on a crowded store", 2000, 20000), ("histories that clear and refill a crowded store", 2000, 20000), ("histories growing a store past 64/128/256/512 records with searches in between", 200, 5000), ("histories growing a store past 1024 records with searches in between", 60, 1500), ("soak searches on one store", 1000000, 4000000), ("search repeating the previous query after a mutation", 2000, 20000), ("operations on another store of the same thread inside a history", 3000, 30000), ("registry-driven searches compared with a fresh store", 5000, 50000), ("adds re-using the id of an earlier record", 3000, 30000)],
+            Which::NoStale => vec![("search after add following an earlier search", 2000, 20000), ("search after clear following an earlier search", 500, 5000), ("search after limit following an earlier search", 500, 5000), ("empty-query search after a mutation following an earlier search", 1000, 10000), ("exhaustive histories", 20000, 200000), ("histories on a crowded store", 2000, 20000), ("histories that clear and refill a crowded store", 2000, 20000), ("histories growing a store past 64/128/256/512 records with searches in between", 200, 5000), ("histories growing a store past 1024 records with searches in between", 60, 1500), ("soak searches on one store", 1000000, 4000000), ("search repeating the previous query after a mutation", 2000, 20000), ("operations on another store of the same thread inside a history", 3000, 30000), ("registry-driven searches compared with a fresh store", 5000, 50000), ("adds re-using the id of an earlier record", 3000, 30000), ("histories whose searches run on other threads than the adds (the store is moved there and back)", 1500, 15000)],
             Which::Registry => vec![("observations", 20000, 200000), ("observations with >= 2 live ids holding results", 2000, 20000), ("destroy", 300, 3000), ("searches", 3000, 30000), ("histories over 4-20 store ids", 1000, 10000), ("bursts of 45-120 records", 300, 3000), ("stores created with another language than their neighbours", 3000, 30000), ("searches repeating the text just sent to another id", 2000, 20000)],
         }
     }
@@ -949,7 +968,8 @@ impl Prop for History {
                 if cx.tier != Tier::Miri && cx.rng.chance(1, 6) {
                     run_history_registry(cx, lang, &ops);
                 } else {
-                    run_history(cx, lang, &ops, true);
+                    let across = cx.tier != Tier::Miri && cx.rng.chance(1, 12);
+                    run_history(cx, lang, &ops, true, across);
                 }
             }
             (Which::NoStale, "exhaustive") => {
@@ -972,13 +992,13 @@ impl Prop for History {
                         }
                         if ok {
                             total += 1;
-                            ok = run_history(cx, l, &ops, c == 77);
+                            ok = run_history(cx, l, &ops, c == 77, false);
                         }
                     }
                 }
                 if head < EXH_OPS {
                     // the length-1 histories
-                    run_history(cx, l, &[exh_op(head, l)], false);
+                    run_history(cx, l, &[exh_op(head, l)], false, false);
                     total += 1;
                 }
                 cx.count_n("exhaustive histories", total);
